@@ -111,6 +111,11 @@ type Engine struct {
 	curPos  token.Pos
 	threads *threadState
 	asserts int
+	crypto  map[string]*Term
+	keyAuthor, keyOther *IfaceV
+	verifyCalls int
+	NoNative bool
+	bagChans bool
 	stampSeq int
 	fixed   map[string]uint64
 	feasBase *Solver
@@ -428,7 +433,14 @@ func (e *Engine) CallFunction(fn *ssa.Function, args []Value, bind []Value) Valu
 		exit = e.tb.Or(exit, r.G)
 	}
 	e.G = exit
-	if e.kills == kills0 {
+	if e.kills == kills0 && os.Getenv("VERIF_CHECK_CALLG") != "" && exit != entryG {
+		// debugging: the shortcut below claims exit == entryG (modulo assumptions)
+		diff := e.tb.Or(e.tb.And(exit, e.tb.Not(entryG)), e.tb.And(entryG, e.tb.Not(exit)))
+		if e.feasible(diff) {
+			fmt.Fprintf(os.Stderr, "CALLG MISMATCH in %s: entry=%s exit=%s\n", name, entryG.Dump(3), exit.Dump(3))
+		}
+	}
+	if e.kills == kills0 && os.Getenv("VERIF_NO_CALLG") == "" {
 		// nothing died inside the call: the disjunction of the return guards is the entry guard
 		e.G = entryG
 	}
@@ -580,7 +592,7 @@ func (e *Engine) evalBlock(fr *Frame, b *ssa.BasicBlock, as []Arrival, route fun
 	}
 	// a join block that post-dominates its immediate dominator gets the dominator's guard back when no
 	// path died in between (classic merge at the post-dominator); this keeps guards small
-	if len(as) > 1 {
+	if len(as) > 1 && os.Getenv("VERIF_NO_PDOM") == "" {
 		if d := b.Idom(); d != nil && fr.cfg.LoopOf[d] == fr.cfg.LoopOf[b] {
 			if eg, ok := fr.endG[d]; ok && eg.Kills == e.kills && eg.Iter == fr.iterStamp && fr.cfg.PostDominates(b, d) {
 				G = eg.G
@@ -677,6 +689,50 @@ func (e *Engine) evalBlock(fr *Frame, b *ssa.BasicBlock, as []Arrival, route fun
 					}
 					fr.concHdr[lp] = true
 				}
+			}
+			if _, ok := fr.skipG[b]; ok && !(fr.cfg.LoopOf[b] != nil && fr.cfg.LoopOf[b].Header == b && fr.cfg.LoopOf[b] != fr.cfg.Root) {
+				// a map range whose body never loops back (it always returns/breaks): no natural loop exists, so the
+				// slots are walked right here; each present slot becomes one arrival at the body carrying its own
+				// (key, value) tuple as a register snapshot
+				var nx *ssa.Next
+				for _, in := range b.Instrs {
+					if n, ok := in.(*ssa.Next); ok {
+						nx = n
+					}
+				}
+				for {
+					tup := fr.regs[nx].(*TupleV)
+					pres := tup.E[0].(*Term)
+					if _, more := fr.skipG[b]; !more {
+						// exhausted
+						if !cur.IsFalse() {
+							route(b.Succs[1], e.mkArrival(fr, cur, b, b.Succs[1], 1))
+						}
+						break
+					}
+					delete(fr.skipG, b)
+					gT := tb.And(cur, pres)
+					if !gT.IsFalse() {
+						a := e.mkArrival(fr, gT, b, b.Succs[0], 0)
+						if a.Snap == nil {
+							a.Snap = map[ssa.Value]Value{}
+						}
+						a.Snap[nx] = tup
+						for _, in := range b.Instrs {
+							if ex, ok := in.(*ssa.Extract); ok && ex.Tuple == nx {
+								a.Snap[ex] = tup.E[ex.Index]
+							}
+						}
+						route(b.Succs[0], a)
+					}
+					cur = tb.And(cur, tb.Not(pres))
+					if cur.IsFalse() {
+						break
+					}
+					e.G = cur
+					fr.regs[nx] = e.next(fr, nx)
+				}
+				return
 			}
 			if skip, ok := fr.skipG[b]; ok {
 				delete(fr.skipG, b)
@@ -1143,10 +1199,18 @@ func (e *Engine) evalInstr(fr *Frame, ins ssa.Instruction) {
 		fr.regs[x] = e.makeSlice(fr, x)
 	case *ssa.MakeChan:
 		sz := e.operand(fr, x.Size).(*Term)
-		if !sz.IsConst() {
+		n := 0
+		if sz.IsConst() {
+			n = int(sz.C)
+		} else if u := tb.UB(e.toInt64(sz, x.Size.Type())); u <= 64 {
+			// symbolic buffer size with a small upper bound: the bound is used as the capacity (an
+			// over-approximation that can only make sends block less; noted)
+			n = int(u)
+			e.note("make(chan) with symbolic size: capacity over-approximated by its upper bound")
+		} else {
 			panic(e.unsupported("make(chan) with symbolic size"))
 		}
-		fr.regs[x] = e.newChan(x.Type(), int(sz.C), e.posStr(x.Pos()))
+		fr.regs[x] = e.newChan(x.Type(), n, e.posStr(x.Pos()))
 	case *ssa.MapUpdate:
 		e.mapUpdate(e.operand(fr, x.Map).(*MapV), e.operand(fr, x.Key), e.operand(fr, x.Value), x.Pos())
 	case *ssa.Range:
